@@ -150,6 +150,7 @@ static FILE *open_common(const char *path, const char *mode, int faults) {
   cookie_io_functions_t io = { ck_read, ck_write, NULL, ck_close };
   FILE *fp = fopencookie(k, mode, io);
   if (!fp) { free(k); return NULL; }
+  if (k->faults && f->plan.unbuffered) setvbuf(fp, NULL, _IONBF, 0);
   simlog("fs open %s mode=%s", path, mode);
   return fp;
 }
